@@ -1,12 +1,12 @@
-\* joint stack: block <= 16 units, requests 0..4 units with alignments 1,2,4: all clauses of C11 hold
+\* (thorough tier) raw requests through joint_allocator with releases in any order (4 requests, block <= 12 units): all clauses of C11 hold
 SPECIFICATION Spec
 CONSTANTS S = 4
-          MaxAdd = 12
-          Bases = {8, 10}
-          Aligns = {1, 2, 4}
-          MaxSize = 4
+          MaxAdd = 8
+          Bases = {8}
+          Aligns = {1, 2}
+          MaxSize = 3
           MaxAllocs = 4
-          NMembers = 2
+          NMembers = 0
           CloneBases = "same"
           EmptyRange = FALSE
           Bug = "none"
